@@ -1362,6 +1362,9 @@ class WcParse(Generic[AnyStr]):
                     current.append(value)
                 self.consume_path_sep(i)
                 current.append(sep)
+            elif self.globstar_capture and not capture:
+                # Merged with the previous `globstar`: `***` makes the merged one follow symlinks (no capture)
+                current[-2] = value
             self.set_start_dir()
         else:
             current.append(value)
